@@ -22,7 +22,7 @@ RULE = ("(a) histories: a pool of values (arrays, lists, tuples, objects of ever
         "in which a result of one call is an argument of a later call, or a multi-valued receiver, or an augmented operator. "
         "Histories come from a Hypothesis RuleBasedStateMachine (sub-check 'machine': every table callable is a rule, oracle "
         "after every step), from a list-of-steps strategy, and from exhaustive single calls and ordered pairs.")
-RULE = RULE + probes.RULE_TEXT + (probes.AUG_TEXT if PROPERTY_ID in probes.AUG_PROPS else "")
+RULE = RULE + probes.RULE_TEXT + (probes.AUG_TEXT if PROPERTY_ID in probes.AUG_PROPS else "") + probes.VARIANT_TEXT
 ASSUMPTIONS = ["returning a view of an argument is not a mutation", "callables needing a display or a file (plot, animate, printline) are excluded; counted in evidence",
                "random constructors are excluded from the repeat-call clause only"]
 
@@ -481,7 +481,7 @@ def gen_pairs(tier):
 
 
 def check_case(case):
-    if case.get("kind") in ("hist", "aug"):
+    if case.get("kind") in ("hist", "aug", "variant"):
         return probes.run(case, PROPERTY_ID)
     if case["kind"] == "history":
         return _history(case)
@@ -660,7 +660,7 @@ def _reflect(case):
 
 
 def classify(case):
-    if case.get("kind") in ("hist", "aug"):
+    if case.get("kind") in ("hist", "aug", "variant"):
         return probes.classify(case)
     k = case["kind"]
     lab = {"kind:" + k: True}
